@@ -3,10 +3,26 @@
 use crate::util::{Ctx, Tier};
 
 pub mod c03;
+pub mod c04;
+pub mod c06;
+pub mod c10;
+pub mod c11;
+pub mod c15;
+pub mod c16;
+
+pub fn c04_op_programs() -> Vec<String> {
+    c04::op_programs()
+}
 
 pub fn run(id: &str, tier: Tier, seed: u64) -> i32 {
     match id {
         "C03" => c03::run(&Ctx::new(id, tier, seed, 40.0, 360.0)),
+        "C04" => c04::run(&Ctx::new(id, tier, seed, 60.0, 900.0)),
+        "C06" => c06::run(&Ctx::new(id, tier, seed, 45.0, 480.0)),
+        "C10" => c10::run(&Ctx::new(id, tier, seed, 40.0, 360.0)),
+        "C11" => c11::run(&Ctx::new(id, tier, seed, 45.0, 360.0)),
+        "C15" => c15::run(&Ctx::new(id, tier, seed, 30.0, 240.0)),
+        "C16" => c16::run(&Ctx::new(id, tier, seed, 30.0, 300.0)),
         _ => {
             eprintln!("unknown property {id}");
             2
@@ -19,6 +35,32 @@ pub fn replay(id: &str, path: &str) -> i32 {
     2
 }
 
-pub fn worker_main(_args: &[String]) -> i32 {
-    2
+pub fn worker_main(args: &[String]) -> i32 {
+    match args.first().map(|s| s.as_str()) {
+        Some("corpus-stats") => {
+            // debugging aid: compile time and size of every corpus program (isolated per program by
+            // a time limit enforced by the caller)
+            let progs = crate::corpus::load();
+            let only: Option<usize> = args.get(1).and_then(|s| s.parse().ok());
+            for (i, (origin, src)) in progs.iter().enumerate() {
+                if let Some(o) = only {
+                    if o != i {
+                        continue;
+                    }
+                }
+                let t0 = std::time::Instant::now();
+                let r = crate::gl::compile(src, true, false);
+                let dt = t0.elapsed().as_secs_f64();
+                match r {
+                    crate::gl::CompileOutcome::Ok(p) => println!("{i} {dt:.3}s gates={} {origin}", crate::gl::ssa(&p).gates.len()),
+                    crate::gl::CompileOutcome::Rejected(k, _) => println!("{i} {dt:.3}s rejected:{k} {origin}"),
+                    crate::gl::CompileOutcome::Crashed(m) => println!("{i} {dt:.3}s CRASH {m} {origin}"),
+                }
+            }
+            0
+        }
+        Some("compile-hash") => c06::worker(&args[1..]),
+        Some("bristol-import") => c11::worker(&args[1..]),
+        _ => 2,
+    }
 }
